@@ -80,6 +80,44 @@ NEEDS = {
  "C18d": ("C18", "previous inflate stream abandoned with decoded bytes still undelivered, reset_as(MinReset), first call not Finish: stale plaintext of the previous stream is returned"),
  "C19c": ("C19", "stop-at-block-boundary on a stream with an empty non-final stored block (sync marker): no stop reported for it"),
  "C19d": ("C19", "InflateState clone taken shortly after the 32 KiB window wrapped, then a match reaching back past the wrap point (hand-written Clone drops the previous lap)"),
+ "C01e": ("C01", "compress_normal: history clamp off by one (cap 32768 - 257 instead of window - look-ahead): the oldest history byte shares a ring slot with the newest look-ahead byte; needs an occurrence exactly 32511 bytes back whose first byte differs only in bits the hash ignores"),
+ "C01f": ("C01", "compress_fast look-ahead refill that wraps the ring copies the wrong source bytes; in a one-shot call only after compress_to_vec's grow-and-retry loop interrupted a chunk (poorly compressible input of 100-127 KB)"),
+ "C02f": ("C02", "zlib, buffer output, a call suspended at an internal block cut (consumed < offered): the re-offered tail is hashed twice into the Adler-32"),
+ "C02g": ("C02", "level >= 4, > 64 KiB of input, a trigram whose hash bucket was last written exactly 65536 positions earlier (u16 alias, distance 0) while a lazy match is pending: dist == 0 guard removed"),
+ "C03g": ("C03", "fast loop: refill before the distance extra bits made 32-bit only; needs 30-32 bits left after the length code and length extra + 15-bit distance code + 13 extra bits"),
+ "C03h": ("C03", "one decoder, two dynamic blocks that both declare distance codes of 11+ bits with different shapes (distance overflow tree not cleared between blocks)"),
+ "C04e": ("C04", "dynamic header with HLIT = 30 (287 lengths) or HDIST = 30 and otherwise complete valid tables (limit check loosened to < 288 / < 32)"),
+ "C04f": ("C04", "fixed block containing symbol 286/287 decoded outside the fast loop (short stream / small chunks): run as a 512-byte match"),
+ "C05e": ("C05", "flat buffer, a call ending with HasMoreOutput inside a match, next call with out_pos below the saved distance: guard dropped in WriteLenBytesToEnd, panic in transfer()"),
+ "C05f": ("C05", "fixed block with a length followed by distance symbol 30 (check off by one): index out of bounds"),
+ "C06e": ("C06", "end of stream reached by a call without the has-more-input flag (Finish / raw decompress) with unrelated bytes behind it in the same slice: look-ahead not handed back"),
+ "C06f": ("C06", "final block ending exactly on a byte boundary (1 stream in 8, or a tiny final stored block) with unrelated bytes following: rewind skipped when nothing needs padding"),
+ "C07e": ("C07", "input cut such that the first code-length symbol completed after resuming is 16 (repeat previous) with a non-zero length to repeat: previous length kept in a local"),
+ "C07f": ("C07", "invalid stream failing with >= 4 input bytes left in the call: look-ahead bytes not handed back on Failed, consumed count depends on chunking"),
+ "C08e": ("C08", "decompress_to_vec_with_limit: data compressing better than 2:1, limit not of the form 2 * input * 2^k, plaintext longer than the limit: vector grown past the limit through reserve()"),
+ "C08f": ("C08", "decompress_with_limit with out_pos > 0 and a finite budget: budget read as an absolute end offset"),
+ "C09e": ("C09", "zlib header with FDICT set and otherwise valid (78 20, 78 f9, 08 3c): combined-mask rewrite drops the preset-dictionary rule"),
+ "C09f": ("C09", "decompress_slice_iter_to_slice with two or more slices, stream completing in a later slice, bad or missing trailer: zlib flag passed for the first slice only"),
+ "C10e": ("C10", "HuffmanOnly (probe budget 1): budget tested before the decrement, one round of probes is made, matches appear in a Huffman-only stream"),
+ "C10f": ("C10", "compress_fast: history clamp applied before the look-ahead refill (no-op): a hash entry 28672..32768 bytes back is accepted although its ring slot now holds newer data"),
+ "C11e": ("C11", "with_params(Zlib, .., window_bits 8..11) then set_format_and_level(ZLibIgnoreChecksum, level >= 1) before any data: max_match_dist() returns 32768 for windows below 12"),
+ "C11f": ("C11", "with_params(.., window_bits = 8): bumped to 9 'like zlib', header declares 512 bytes for a requested 256-byte window"),
+ "C12e": ("C12", "data closed by a Sync/Partial/NoSync flush, then directly a Full flush with no new input, then input repeating pre-flush data: history reset skipped for an empty block"),
+ "C12f": ("C12", "Full flush whose output does not fit, collected by a following call, then input repeating pre-flush data: history reset only on the Ok(0) arm"),
+ "C13e": ("C13", "a None/Sync call with empty input while the decoder waits for input, then a call that supplies input: has-more flag not set for empty chunks, FailedCannotMakeProgress latched"),
+ "C13f": ("C13", "corrupt stream detected while output is still pending in the window (small output buffer), caller calls again: sticky-failure gates moved below the pending-delivery return"),
+ "C14e": ("C14", "stream driven to StreamEnd, then Finish with an empty output slice: Ok(StreamEnd) instead of Err(Buf)"),
+ "C14f": ("C14", "Finish that cannot complete, a refused non-Finish call, then a second non-Finish call: accepted (BadParam no longer sticky, remembered Finish overwritten)"),
+ "C15e": ("C15", "level 1, MZ_FIXED, incompressible bytes >= 144, n in a band around 70-150 KB: dict.size lags after a refactor of the tail-literal loop, first 31 KiB block cannot be stored"),
+ "C15f": ("C15", "MZ_FIXED, level >= 2, 9-bit literals with a run of zeros every 15000 bytes, about 1 MB: forced-static disjunct of the block-cut test dropped"),
+ "C16e": ("C16", "update_adler32 fast path for chunks < 16 bytes reduces with > instead of >=: a chunk after which 1 + sum of bytes is exactly 65521"),
+ "C16f": ("C16", "raw-deflate compressor asked to compute the checksum (mz_deflateInit2 with negative window bits, TDEFL_COMPUTE_ADLER32 without zlib header): running value stays 1"),
+ "C17e": ("C17", "multi-call tinfl_decompress with out_buf_next != out_buf_start and a linear buffer with little slack or a ring at a non-zero offset: size of the buffer misread"),
+ "C17f": ("C17", "mz_compress / mz_compress2 with a destination between 1 byte and compressed size - 1: MZ_OK with a truncated stream"),
+ "C18e": ("C18", "a completed stream, reset(), then a stream with a block that does not compress or level 0: code_buf_dict_pos not reset"),
+ "C18f": ("C18", "previous inflate stream > 32 KiB through the window, ZeroReset/FullReset, then a stream with a match reaching before its own start: only dict[..dict_ofs + dict_avail] zeroed"),
+ "C19e": ("C19", "serde round trip while suspended inside a stored block with more than 511 payload bytes outstanding: deserialize bound on counter too small"),
+ "C19f": ("C19", "rebuild from the block-boundary record after a 32 KiB ring has wrapped, then a match whose distance exceeds the ring write position: new out_wrapped flag not in the record"),
 }
 
 def main():
